@@ -1,13 +1,11 @@
-/- Chunk 4 of the exhaustive C04 check: guard assignments 128 ≤ m < 160, all four cursor-flag
-   combinations, evaluated by the kernel (`decide +kernel`) on the lists regenerated from vaxis.go. -/
-import VaxisModel.Lemmas.C04Check
+/- Chunk 4 of the exhaustive C04 check: guard assignments 128 ≤ m < 160, all four visibility-flag
+   combinations of the two cursor records, evaluated by the kernel (`decide +kernel`) on the *symbolic*
+   lifecycle (run-time values are holes) interpreted from the lists regenerated from vaxis.go. -/
+import VaxisModel.Lemmas.C04SymCheck
 
-namespace VaxisModel.Lemmas.C04Check
-
-set_option maxRecDepth 100000 in
-theorem balanced_chunk04 : chunkB balancedB 128 160 = true := by decide +kernel
+namespace VaxisModel.Lemmas.C04SymCheck
 
 set_option maxRecDepth 100000 in
-theorem resume_chunk04 : chunkB resumeB 128 160 = true := by decide +kernel
+theorem sym_chunk04 : chunkB 128 160 = true := by decide +kernel
 
-end VaxisModel.Lemmas.C04Check
+end VaxisModel.Lemmas.C04SymCheck
